@@ -814,14 +814,22 @@ def check_synthetic(ctx: Ctx, res: Result, with_model: bool):
         res.count("a.rank_restricted_edges", min(st["restricted"], 4))
         res.case({"kind": "synthetic", "spec": spec}, nontrivial=bool(sc.replicated) and bool(sc.private))
         queries = []
+        first_pass = {}
         for rank in range(W + 3):
             reqs = pick_requests(rng, sc, rank)
             queries.append((rank, reqs))
             res.count("a.rank_class", "existing" if rank < W else "new")
             fails = oracle_synthetic(sc, rank, reqs, uid)
+            first_pass[rank] = {sig for sig, _ in fails}
             record(res, fails, {"kind": "synthetic", "spec": spec, "rank": rank, "reqs": reqs})
             for sig, _ in fails:
                 res.count("a.failure_signature", sig)
+        # the views are computed again on the SAME metadata object, new ranks first: computing one rank's view
+        # must not disturb what another rank is given afterwards (one Snapshot object serves several calls)
+        for rank, reqs in reversed(queries):
+            fails = [(sig, msg) for sig, msg in oracle_synthetic(sc, rank, reqs, uid) if sig not in first_pass.get(rank, set())]
+            record(res, [(sig + ":after-other-ranks-views", msg) for sig, msg in fails],
+                   {"kind": "synthetic", "spec": spec, "rank": rank, "reqs": reqs, "order": "descending-second-pass"})
         if not with_model:
             continue
         inp, gets, views = case_terms(sc.metadata, uid, queries)
